@@ -20,6 +20,10 @@ structure Cfg where
   P     : Params
   s     : Nat        -- startIndex = cctx->currentOffset at entry
   small : Bool       -- dictIssue == dictSmall
+  split : Nat := 0   -- `usingExtDict`: position where the source starts in the logical segment `dictionary ++ source` (catch-up stops there: `lowLimit`); 0 otherwise
+
+/-- `lowLimit` of a candidate at position `m` (the start of the segment it lies in) -/
+def Cfg.low (C : Cfg) (m : Nat) : Nat := if m ≥ C.split then C.split else 0
 
 def searchR (C : Cfg) (src : Array UInt8) (mfl1 : Nat) : Nat → Nat → Nat → Nat → Array Nat → Option (Nat × Nat × Array Nat)
   | 0, _, _, _, _ => none
@@ -71,7 +75,7 @@ def stepR (C : Cfg) (src : Array UInt8) (st : St) : Res :=
     match searchR C src mfl1 (n + 1) st.ip 1 (C.P.accel <<< LZ4V.Gen.LZ4_skipTrigger) st.tbl with
     | none => .last { st with tbl := searchTblR C mfl1 (n + 1) st.ip 1 (C.P.accel <<< LZ4V.Gen.LZ4_skipTrigger) st.tbl }
     | some (ip, m, tbl) =>
-      let c := catchUp src st.anchor n ip m
+      let c := catchUpL src st.anchor (C.low m) n ip m
       let ll := c.1 - st.anchor
       let op1 := st.op + 1
       if over C.P (op1 + ll + (2 + 1 + LZ4V.Gen.LASTLITERALS) + ll / 255) then .fail else
